@@ -266,10 +266,31 @@ func VH_C14_recv_cut() {
 	var bodies [][]byte
 	bad := -1
 	rejectMode := vrtParam("reject", 0) == 1 // separate job: unroutable envelope instead of cut / undecodable frame
-	if !rejectMode && vrtChoose(2) == 1 {
+	if !rejectMode && vrtParam("badhdr", 0) == 0 && vrtChoose(2) == 1 {
 		bad = vrtChoose(F)
 	}
+	// badhdr job: a header whose length field is invalid (> 4 MiB, value symbolic)
+	// sits in the stream before frame `hdrAt` (or after the last one); it carries
+	// no body, the frames around it are valid and may arrive in the same read
+	hdrMode := vrtParam("badhdr", 0) == 1
+	hdrAt := -1
+	hdrLen := 0
+	if hdrMode {
+		hdrAt = vrtChoose(F + 1)
+	}
+	putBadHeader := func() {
+		l := vrtUint32()
+		vrtAssume(l > 4*1024*1024)
+		var hb [4]byte
+		binary.BigEndian.PutUint32(hb[:], l)
+		stream = append(stream, hb[:]...)
+		hdrLen = 4
+		vrtReach("invalid-length-header")
+	}
 	for i := 0; i < F; i++ {
+		if i == hdrAt {
+			putBadHeader()
+		}
 		b := vrtBytes(1 + vrtChoose(maxbody))
 		if i == bad {
 			b[0] = 0xEE
@@ -279,8 +300,12 @@ func VH_C14_recv_cut() {
 		bodies = append(bodies, b)
 		stream = append(stream, vhFrame(b, false)...)
 	}
+	if hdrAt == F {
+		putBadHeader()
+	}
+	_ = hdrLen
 	conn := &vhConn{stream: stream, partials: vrtParam("partials", 1), cut: -1}
-	if !rejectMode && vrtChoose(2) == 1 {
+	if !rejectMode && !hdrMode && vrtChoose(2) == 1 {
 		conn.cut = vrtChoose(len(stream) + 1)
 		if vrtChoose(2) == 1 {
 			conn.cutErr = errors.New("connection reset by peer")
@@ -328,6 +353,9 @@ func VH_C14_recv_cut() {
 	}
 	if h.reject && len(h.got) > h.rejectAt+1 {
 		vrtReach("frame-after-unroutable-delivered")
+	}
+	if hdrMode && hdrAt < F && len(h.got) == F {
+		vrtReach("frame-after-invalid-length-delivered")
 	}
 	vrtReach("done")
 }
